@@ -182,6 +182,7 @@ def run_probe(case):
 def run_api(case):
     """Overlay helper API: tweaking / rewriting / tap / on."""
     ol = Overlay()
+    tweaks = {}
     for i, h in enumerate(case["handlers"]):
         hid = i + 1
         text = S.sel_str(h["sel"])
@@ -192,7 +193,7 @@ def run_api(case):
             ol.register(s, cb, all=True, immediate=False)
         elif h["ovr"]["k"] == "const":
             # tweak gives no way to observe intercept calls; the A-level only checks the stored value
-            ol.tweak({s: h["ovr"]["c"]})
+            tweaks[s] = h["ovr"]["c"]          # all constant overrides go into ONE tweak dict (see below)
         elif h["ovr"]["k"] != "none":
             fk = focus_key(h["sel"])
             fn = ovr_fn(h["ovr"], fk)
@@ -205,6 +206,9 @@ def run_api(case):
             def cb(data, hid=hid):
                 rt.LOG.append(("dlv", hid, plain_rec(data)))
             ol.register(s, cb)
+    if tweaks:
+        # activation order = handler order: the tweak handlers are added last, so they are the most recent ones
+        ol.tweak(tweaks)
     return [ol]
 
 
@@ -256,8 +260,11 @@ def run_case(case, mode):
                 rt.res(world.f(case.get("arg", 0)))
             except rt.ScriptBase:
                 rt.caught()
-    except rt.BadScript:
-        raise
+    except rt.BadScript as ex:
+        # the instrumented world consumed the script differently from what the script describes (e.g. an exception
+        # was swallowed or raised where none should be): part of the observable outcome
+        outcome = "ScriptDesync"
+        rt.LOG.append(("env", "error", 0))
     except Exception as ex:  # an error escaping from ptera machinery: part of the observable outcome
         outcome = type(ex).__name__
         rt.LOG.append(("env", "error", 0))
